@@ -115,7 +115,7 @@ func c15Flavour() string {
 func init() {
 	c := &core.Check{
 		ID: "C15", Level: "exploration",
-		Rule:   "elements given by raw Montgomery limbs: full cross product over 4 limbs of {0,1,2^64-1,q_i-1,q_i (,2^63,q_i+1 thorough)} filtered to < r, plus +-2 neighbourhoods of 0,(r-1)/2,r,R,R^2,2^64k; every pair through every binary operation, every element through every unary operation, all receiver/operand aliasing patterns; BatchInvert on all lists of length <= 4 over {0,1,r-1,PRF} and lengths 0..300 with a zero at every position; Sqrt/Legendre on g^k*h for all 32 k; each enumeration repeated in three build flavours (default asm, -tags noadx, portable Go); a case = (flavour, operation, operands); non-trivial = an operand with a boundary limb or an aliased receiver",
+		Rule:   "elements given by raw Montgomery limbs: full cross product over 4 limbs of {0,1,2^64-1,q_i-1,q_i (,2^63,q_i+1 thorough)} filtered to < r, plus +-2 neighbourhoods of 0,(r-1)/2,r,R,R^2,2^64k; every pair through every binary operation, every element through every unary operation, all receiver/operand aliasing patterns; BatchInvert on all lists of length <= 4 over {0,1,r-1,PRF}, lengths up to 300 with a zero at every position and lengths 511..4097 with zeros at spread positions; receivers pre-filled with a non-zero value; Sqrt/Legendre on g^k*h for all 32 k; each enumeration repeated in three build flavours (default asm, -tags noadx, portable Go); a case = (flavour, operation, operands); non-trivial = an operand with a boundary limb or an aliased receiver",
 		Assume: []string{"oracle: math/big modulo r on the regular value", "ADX availability of this CPU is recorded in the evidence; the portable flavour is produced by an overlay that removes the assembly files"},
 	}
 	c.Units = func(ctx *core.Ctx) []core.Unit { return c15Units(c, ctx) }
